@@ -203,7 +203,7 @@ func panJudgeConverge(c *Ctx, cs *PanCase, node *panosdev.Node, o PanOpts, prop,
 		fail := func(key, msg string) *Failure {
 			// A service-group that exists on the device gets its new member
 			// list by action=set, which merges: name that circumstance.
-			if sgSetOnExisting(r.Node.Transcr, before.Cand) && !strings.HasPrefix(key, "tool-panic") && key != "no-exit" {
+			if strings.Contains(key, "service") && sgSetOnExisting(r.Node.Transcr, before.Cand) {
 				key += "|service-group-members-set"
 			}
 			in := cs.Input()
